@@ -124,6 +124,8 @@ func (ex *Exec) zero(t types.Type) Value {
 			return PtrV{}
 		case u.Kind() == types.UntypedNil:
 			return PtrV{}
+		case u.Kind() == types.Invalid:
+			return nil // unused component of a range tuple
 		}
 		ex.unsupported("zero of basic type " + u.String())
 	case *types.Pointer:
